@@ -209,19 +209,21 @@ pub fn scenarios(tier: &str) -> Vec<Scenario> {
         }));
     }
     if tier == "thorough" {
-        let full2 = full.clone();
+        // (measured: the first version with all 15 shapes in step one and three full steps ran for hours)
+        let medium = shapes(2);
         let small2 = small.clone();
-        v.push(Scenario::new("two_steps_full_then_small", &["some_ok", "some_err"], move || {
-            let mut w = setup(true);
-            step(&mut w, 0, &all, &full2);
-            step(&mut w, 1, &all, &small2);
+        v.push(Scenario::new("two_steps_lists_up_to_2_then_small", &["some_ok", "some_err"], move || {
+            let mut w = setup(false);
+            step(&mut w, 0, &all, &medium);
+            step(&mut w, 1, &all, &small2[..3].to_vec());
         }));
         let small3 = small.clone();
-        v.push(Scenario::new("three_steps_small_shapes", &["some_ok", "some_err"], move || {
+        v.push(Scenario::new("three_steps_transfers_then_all_kinds", &["some_ok", "some_err"], move || {
             let mut w = setup(false);
-            step(&mut w, 0, &all, &small3[..2].to_vec());
-            step(&mut w, 1, &all, &small3[..2].to_vec());
-            step(&mut w, 2, &all, &small3);
+            let transfers = [Kind::Send, Kind::ContractSend];
+            step(&mut w, 0, &transfers, &small3[..1].to_vec());
+            step(&mut w, 1, &transfers, &small3[..2].to_vec());
+            step(&mut w, 2, &all, &small3[..3].to_vec());
         }));
     }
     v
